@@ -95,9 +95,9 @@ impl Display for Variant<'_> {
             Self::Variable(variable, _) => write!(f, "{variable}"),
             Self::Lambda(variable, implicit, domain, body) => {
                 if *implicit {
-                    write!(f, "{{{variable} : {domain}}} => {body}")
+                    write!(f, "{{{variable} : {}}} => {body}", annotation(domain))
                 } else {
-                    write!(f, "({variable} : {domain}) => {body}")
+                    write!(f, "({variable} : {}) => {body}", annotation(domain))
                 }
             }
             Self::Pi(variable, implicit, domain, codomain) => {
@@ -106,9 +106,9 @@ impl Display for Variant<'_> {
 
                 if variables.contains(&0) {
                     if *implicit {
-                        write!(f, "{{{variable} : {domain}}} -> {codomain}")
+                        write!(f, "{{{variable} : {}}} -> {codomain}", annotation(domain))
                     } else {
-                        write!(f, "({variable} : {domain}) -> {codomain}")
+                        write!(f, "({variable} : {}) -> {codomain}", annotation(domain))
                     }
                 } else if *implicit {
                     write!(f, "{{{domain}}} -> {codomain}")
@@ -196,6 +196,43 @@ fn group(term: &Term) -> String {
         | Variant::GreaterThan(_, _)
         | Variant::GreaterThanOrEqualTo(_, _)
         | Variant::If(_, _, _) => format!("({term})"),
+    }
+}
+
+// Convert the annotation of a lambda or pi type to a string. A let is the only kind of term that
+// cannot appear there without parentheses [ref:bison_grammar].
+fn annotation(term: &Term) -> String {
+    match &term.variant {
+        Variant::Unifier(subterm, _) => {
+            // We `clone` the borrowed `subterm` to avoid holding the dynamic borrow for too long.
+            if let Some(subterm) = { subterm.borrow().clone() } {
+                annotation(&subterm)
+            } else {
+                format!("{term}")
+            }
+        }
+        Variant::Let(_, _) => format!("({term})"),
+        Variant::Type
+        | Variant::Variable(_, _)
+        | Variant::Lambda(_, _, _, _)
+        | Variant::Pi(_, _, _, _)
+        | Variant::Application(_, _)
+        | Variant::Integer
+        | Variant::IntegerLiteral(_)
+        | Variant::Negation(_)
+        | Variant::Sum(_, _)
+        | Variant::Difference(_, _)
+        | Variant::Product(_, _)
+        | Variant::Quotient(_, _)
+        | Variant::LessThan(_, _)
+        | Variant::LessThanOrEqualTo(_, _)
+        | Variant::EqualTo(_, _)
+        | Variant::GreaterThan(_, _)
+        | Variant::GreaterThanOrEqualTo(_, _)
+        | Variant::Boolean
+        | Variant::True
+        | Variant::False
+        | Variant::If(_, _, _) => format!("{term}"),
     }
 }
 
